@@ -37,6 +37,17 @@ def expectedSites : List (String × String × String) := [
 
 theorem fact_enumSites : Folang.Generated.enumSites = expectedSites := by decide
 
+/-- one level up: the functions of fc that enumerate a dictionary are used only by the consumers the
+order-independence theorems are about (`eqsItems` only by `rsRegisterNewEI`, `eqsUnion` only by
+`eiUnion`, …): a new user of an enumerating function — an enumeration handed on through a wrapper —
+changes this list -/
+theorem fact_enumCallers : Folang.Generated.enumCallers =
+    [("fc/gen_infer.go", "eiUnion", "eqsUnion"),
+     ("fc/gen_infer.go", "rsRegisterNewEI", "eqsItems"),
+     ("fc/gen_parse_state.go", "scLookupRecFac", "scLookupRecFacCur"),
+     ("fc/gen_parser.go", "parseURules", "exaustiveCheck"),
+     ("fc/gen_parser.go", "parsePackageInfo", "piRegAll")] := by decide
+
 /-- the shape `lookupRecFac` models: Values, Filter, SortBy, IsEmpty, then Head (fix 5aa1ab1) -/
 theorem fact_lookupRecFacCalls : Folang.Generated.lookupRecFacCalls =
     ["frt.Pipe", "frt.Pipe", "dict.Values", "slice.Filter", "slice.SortBy", "frt.IfElse", "slice.IsEmpty",
